@@ -19,7 +19,7 @@ import (
 //   - composition_invariants: the DI composition root is evaluated for its complete (finite) input domain
 var conformancePkgs = map[string][]string{
 	"internal/cmd":       {"C10", "C16", "C12", "C18", "C09"},
-	"internal/pkg/types": {"C11", "C02"},
+	"internal/pkg/types": {"C11", "C02", "C03", "C04"},
 	"internal/pkg/token": {"C03", "C12"},
 	"internal/pkg/input": {"C18", "C11", "C06"},
 }
